@@ -60,9 +60,14 @@ def scenario_for(seed, index, tier):
         ign_pool = IGNORABLE_OUT if outgoing else IGNORABLE_IN
         ignore = rng.sample(ign_pool, rng.choice([0, 0, 0, 1, 2])) \
             if rng.random() < 0.5 else []
+        # an incoming listener may itself write a packet at once (forced)
+        # while the incoming packet is still being dispatched
+        fw = rng.sample(['ka', 'chat', 'pos', 'time', 'unknown'],
+                        rng.choice([1, 2])) \
+            if (not outgoing and rng.random() < 0.15) else []
         listeners.append({'id': i, 'early': rng.random() < 0.5,
                           'outgoing': outgoing, 'types': types,
-                          'ignore': ignore})
+                          'ignore': ignore, 'fw': fw})
     known = set(ids['cb.play.known'])
     login = []
     if ids['cb.login.plugin_request'] is not None:
@@ -184,9 +189,16 @@ def reference(sc):
     exp_in = []
     compression_reacted = True
     outgoing = [(('hs',), 'hs'), (('login-start',), 'login-start')]
+    fw_count = {}
+    by_id = {l['id']: l for l in L}
     for key, kind in incoming:
         calls, reacted = dispatch_in(L, kind)
         exp_in += [(lid, key) for lid in calls]
+        for lid in calls:
+            if kind in by_id[lid].get('fw', ()):
+                n = fw_count.get(lid, 0)
+                fw_count[lid] = n + 1
+                outgoing.append((('chat', 'fw-%d-%d' % (lid, n)), 'chat'))
         if kind == 'set-compression':
             compression_reacted = reacted
         if reacted:
@@ -295,6 +307,8 @@ def execute(scenario, tape):
                 return ('sentinel',), 'sentinel'
             return (n,), n
 
+        fw_n = {}
+
         def make(l):
             def cb_(p):
                 key, kind = (key_out if l['outgoing'] else key_in)(p)
@@ -306,6 +320,11 @@ def execute(scenario, tape):
                     'spawned': getattr(conn, 'spawned', None)})
                 if kind == 'login-success' and not l['outgoing']:
                     st['in_play'] = True
+                if not l['outgoing'] and kind in l.get('fw', ()):
+                    n = fw_n.get(l['id'], 0)
+                    fw_n[l['id']] = n + 1
+                    conn.write_packet(sb.play.ChatPacket(
+                        message='fw-%d-%d' % (l['id'], n)), force=True)
                 if kind in l['ignore']:
                     raise IgnorePacket
             return cb_
@@ -554,6 +573,11 @@ def shrink_scenario(sc):
             c['listeners'][j]['ignore'] = []
             finish(c)
             yield c
+        if l.get('fw'):
+            c = copy.deepcopy(sc)
+            c['listeners'][j]['fw'] = []
+            finish(c)
+            yield c
 
 
 def evidence(tier, seed, m, d):
@@ -563,7 +587,7 @@ def evidence(tier, seed, m, d):
              'classes early/ordinary x incoming/outgoing, 0..3 type filters '
              'each from a class hierarchy incl. abstract super-classes and '
              'unrelated classes, random subsets raising IgnorePacket per '
-             'packet kind) x packet histories in login (plugin requests) and '
+             'packet kind; 15% of the incoming listeners write a packet themselves - forced - while the incoming packet is being dispatched) x packet histories in login (plugin requests) and '
              'play (keep-alive, position, chat, time, unknown) x queued and '
              'forced user writes; compared with a reference dispatcher over '
              'the global event order; evaluations = oracle obligations; '
